@@ -127,9 +127,76 @@ def tamper_job(j):
     return out
 
 
+def doc_tamper_job(j):
+    """whole-document replay (the real optimize_asm_from_log) with tampered logs: it must raise, or every block of what
+    it writes must be equivalent to the input block (E1)"""
+    doc, workdir = j
+    import gasol_asm
+    from sfs_generator.parser_asm import parse_asm
+    p = gasol.params()
+    base = os.path.join(workdir, "dt_" + os.path.basename(doc).split(".")[0] + "_" + gasol.optset_name(gasol._OPTS).replace("/", "_"))
+    p.input_file, p.input_format = doc, "asm"
+    p.seqs_file, p.blocks_file, p.log_file = base + "_s.csv", base + "_b.csv", base + ".log"
+    p.generate_log, p.optimized_file = True, base + "_opt.json"
+    out = {"logs": 0, "raised": 0, "accepted": 0, "blocks_compared": 0, "bad": []}
+    with gasol.Silence():
+        gasol_asm.optimize_asm_in_asm_format(p)
+    with open(p.log_file) as f:
+        genuine = json.load(f)
+    keys = sorted(genuine)
+    if not keys:
+        return out
+    inputs = {b.block_name: b for b in gasol.blocks_of_document(doc)}
+    picks = keys[:: max(1, len(keys) // 6)][:6]
+    variants = []
+    for k in picks:
+        for repl, label in (([], "emptied"), (["POP"], "POP"), (genuine[k][:-1], "truncated"), (list(reversed(genuine[k])), "reversed"),
+                            (genuine[k] + genuine[k][-1:], "last duplicated"), (["FOREIGN_9"], "foreign id")):
+            t = dict(genuine)
+            t[k] = repl
+            variants.append((t, "%s %s" % (k, label)))
+    variants.append(({k: [] for k in genuine}, "all entries emptied"))
+    variants.append(({k: genuine[keys[(i + 1) % len(keys)]] for i, k in enumerate(keys)}, "entries rotated"))
+    p.generate_log = False
+    for tampered, label in variants:
+        out["logs"] += 1
+        p.optimized_file = base + "_t.json"
+        try:
+            with gasol.Silence():
+                gasol_asm.optimize_asm_from_log(p, tampered)
+        except Exception:
+            out["raised"] += 1
+            continue
+        out["accepted"] += 1
+        with gasol.Silence():
+            res = parse_asm(p.optimized_file)
+        for c in res.contracts:
+            if not c.has_asm_field:
+                continue
+            blocks = list(c.init_code)
+            for ident in c.get_data_ids_with_code():
+                blocks += c.get_run_code(ident)
+            for nb in blocks:
+                ob = inputs.get(nb.block_name)
+                if ob is None:
+                    continue
+                A, B = gasol.instrs_of(ob), gasol.instrs_of(nb)
+                if A == B:
+                    continue
+                out["blocks_compared"] += 1
+                r = check_equiv(A, B, 6000, kind="c11:doc")
+                if r.verdict == "different":
+                    out["bad"].append({"log": label, "block": nb.block_name, "input": gasol.plain_of(A), "rebuilt": gasol.plain_of(B),
+                                       "why": r.reason, "observed": r.replay})
+                    break
+    return out
+
+
 def job(j):
     if j[0] == "tamper":
         return tamper_job(j[1:])
+    if j[0] == "doctamper":
+        return doc_tamper_job(j[1:])
     return replay_job(j[1:])
 
 
@@ -156,6 +223,7 @@ def main():
         tasks = [(gasol.optset("none", "gas", True, True, "greedy"), [("tamper", b, max_len) for b in blocks], 1)]
         for k, o in enumerate(osets):
             tasks.append((o, [("replay", "optimize", docs[(k * ndocs + i) % len(docs)], workdir) for i in range(ndocs)], 1))
+            tasks.append((o, [("doctamper", docs[(k * ndocs + i + 7) % len(docs)], workdir) for i in range(1 if tier == "quick" else 3)], 1))
         results, stats = pool.run(tasks, "checks.c11:job", job_timeout=1500)
         # second phase of part 1 in fresh processes
         tasks2 = []
@@ -169,6 +237,18 @@ def main():
             if j[0] == "replay":
                 if not r.get("ok"):
                     rep.harness_error("optimize phase failed for %s: %s" % (j[2], str(r)[:300]))
+                continue
+            if j[0] == "doctamper":
+                if "logs" not in r:
+                    rep.harness_error("document tamper job failed: %s" % str(r)[:300])
+                    continue
+                logs += r["logs"]
+                raised += r["raised"]
+                accepted += r["accepted"]
+                for b in r["bad"]:
+                    rep.violation("doc-tamper:%s:%s" % (os.path.basename(j[1]), b["log"]),
+                                  "whole-document replay accepts the tampered log (%s) and emits %s for block %s (input %s): %s; %s"
+                                  % (b["log"], b["rebuilt"], b["block"], b["input"], b["why"], b["observed"]), {"options": o, **b})
                 continue
             if "logs" not in r:
                 rep.harness_error("tamper worker failed on %r: %s" % (j, str(r)[:300]))
